@@ -30,6 +30,8 @@ pub struct Driver {
     pub listener_fd: i32,
     pub epoll_fd: i32,
     pub kill_fd: i32,
+    /// client actions really performed inside the last requests() call (op, client)
+    pub last_mid: Vec<(String, usize)>,
     pub base_fds: usize,
     /// files whose content is their tag: what clients pass to the server with SCM_RIGHTS
     pub tags: crate::connexec::TagFiles,
@@ -126,7 +128,7 @@ impl Driver {
             })
             .collect();
         let tags = crate::connexec::TagFiles::new(&format!("{}/tags-{}", sock_dir, std::process::id()));
-        let d = Driver { server, path, clients, held: vec![], kill, listener_fd, epoll_fd, kill_fd, base_fds: 0, tags };
+        let d = Driver { server, path, clients, held: vec![], kill, listener_fd, epoll_fd, kill_fd, last_mid: vec![], base_fds: 0, tags };
         let line = json!({"e": "reset", "hist": hist, "maxconn": crate::MAX_CONN, "buf": crate::BUF, "limit": obs::digits(limit as u128),
                           "kill": with_kill, "lfd": listener_fd, "kfd": kill_fd, "nclients": nclients, "from_fd": from_fd, "kill_late": kill_late, "prekill": with_kill && prekill,
                           "srvfds": d.server_fd_count()});
@@ -330,15 +332,69 @@ impl Driver {
                 line["called"] = json!(ready);
                 if ready {
                     micro_http::verif::drain();
+                    // race injection: client actions performed INSIDE the call, right before the server
+                    // handles the k-th element of the batch (hook `at_event`); each one is logged in the
+                    // hook list at the point where it happened ({"h":"mid",...})
+                    let mut plan: Vec<(usize, String, usize, i32, Vec<u8>)> = vec![];
+                    for m in st["mid"].as_array().cloned().unwrap_or_default() {
+                        let mc = m["c"].as_u64().unwrap_or(0) as usize;
+                        let fd = self.clients.get(mc.wrapping_sub(1)).and_then(|c| c.sock.as_ref()).map(|s| s.as_raw_fd());
+                        if let Some(fd) = fd {
+                            plan.push((m["at"].as_u64().unwrap_or(0) as usize, m["op"].as_str().unwrap_or("").to_string(), mc, fd, obs::from_bytes(&m["bytes"])));
+                        }
+                    }
+                    let armed = !plan.is_empty();
+                    if armed {
+                        let mut k = 0usize;
+                        let mut gone: Vec<usize> = vec![];
+                        micro_http::verif::set_at_event(Some(Box::new(move |_fd| {
+                            for (at, op, mc, fd, bytes) in plan.iter() {
+                                if *at != k || gone.contains(mc) {
+                                    continue;
+                                }
+                                // SAFETY: plain socket calls on descriptors the harness owns.
+                                let n = unsafe {
+                                    match op.as_str() {
+                                        // what the peer sees is that of close(2); the descriptor itself is closed after the call
+                                        "close" => { gone.push(*mc); libc::shutdown(*fd, libc::SHUT_RDWR) as isize }
+                                        "shutwr" => libc::shutdown(*fd, libc::SHUT_WR) as isize,
+                                        "shutrd" => libc::shutdown(*fd, libc::SHUT_RD) as isize,
+                                        _ => libc::send(*fd, bytes.as_ptr() as *const libc::c_void, bytes.len(), libc::MSG_NOSIGNAL | libc::MSG_DONTWAIT),
+                                    }
+                                };
+                                let sent: &[u8] = if op == "send" && n > 0 { &bytes[..n as usize] } else { &[] };
+                                micro_http::verif::emit(json!({"h": "mid", "at": k, "op": op, "c": mc, "n": n, "bytes": obs::bytes(sent)}).to_string());
+                            }
+                            k += 1;
+                        })));
+                    }
                     let r = std::panic::catch_unwind(std::panic::AssertUnwindSafe(|| self.server.requests()));
+                    if armed {
+                        micro_http::verif::set_at_event(None);
+                    }
+                    let hk = hooks();
+                    for h in hk.as_array().cloned().unwrap_or_default() {
+                        if h["h"] == "mid" {
+                            let mc = h["c"].as_u64().unwrap_or(0) as usize;
+                            self.last_mid.push((h["op"].as_str().unwrap_or("").to_string(), mc));
+                            if let Some(cl) = self.clients.get_mut(mc.wrapping_sub(1)) {
+                                match h["op"].as_str().unwrap_or("") {
+                                    "close" => { cl.sock = None; cl.raw = -1; }
+                                    "shutwr" => cl.wr_shut = true,
+                                    "shutrd" => cl.rd_shut = true,
+                                    _ => {}
+                                }
+                            }
+                        }
+                    }
                     match r {
                         Err(_) => {
                             line["res"] = json!("panic");
-                            line["hooks"] = hooks();
+                            line["hooks"] = hk.clone();
                             line["yielded"] = json!([]);
                         }
                         Ok(r) => {
-                            line["hooks"] = hooks();
+                            line["hooks"] = hk.clone();
                             let mut yielded = vec![];
                             if let Ok(reqs) = &r {
                                 for q in reqs {
